@@ -15,6 +15,7 @@ RULE = ('bounded-exhaustive: every string of length <= L over {a, \\n, \\r, spac
         'first_line_column_offset in {0,3} x column_offset in {0,2}), compared with a counting '
         'model; plus every LatexWalkerParseError raised by the strict parse of every string '
         'of up to 4 (quick) / 5 (thorough) tokens over {a, NL, {, }, $, \\textbf, \\end{x}} under 3 offset settings. '
+        'Error inputs include token-reader and verbatim-parser errors. '
         'Non-trivial = (string, position) pairs where the position is at a newline, directly '
         'after a newline, at end of input, or in the empty string, and located errors on '
         'multi-line input; every pair is enumerated once, so all are distinct.')
